@@ -34,7 +34,7 @@ func init() {
 			return 36000
 		},
 		Run:      runC15,
-		Required: []string{"pairs_connected", "messages_crossed", "rsv1_frames_seen", "server_offers_checked", "client_replies_checked", "writers_left_open_for_the_next_message", "compression_toggled_with_open_writer"},
+		Required: []string{"pairs_connected", "messages_crossed", "rsv1_frames_seen", "server_offers_checked", "client_replies_checked", "writers_left_open_for_the_next_message", "compression_toggled_with_open_writer", "pairs_with_offer_in_application_header"},
 		Assumptions: []string{
 			"a client that did not offer permessage-deflate but is told by a (non-gorilla) server that it is in use is UNSPECIFIED",
 			"extension offers with quoting, upper case or malformed syntax are executed; only 'announce => offered and enabled' and 'compresses <=> announced' are demanded",
@@ -86,14 +86,41 @@ func compressesNow(c *ws.Conn, nc *xport.Conn, isClient bool) (bool, error) {
 
 // acceptsCompressed: is a compressed frame fed to its reader decoded?
 func acceptsCompressed(c *ws.Conn, nc *xport.Conn, isClient bool) bool {
-	z, _ := wire.Inflate([]byte{0}) // warm: nothing
-	_ = z
+	return acceptsCompressedShape(c, nc, isClient, 0)
+}
+
+// acceptsCompressedShape: shape 0 one frame; 1 an empty first fragment carrying RSV1,
+// the data in a continuation; 2 split after the first byte; 3 three fragments, the
+// middle one empty (all legal under RFC 6455 / RFC 7692)
+func acceptsCompressedShape(c *ws.Conn, nc *xport.Conn, isClient bool, shape int) bool {
 	payload := []byte("hello compressed world")
 	// DEFLATE stored block, non-final, then the RFC 7692 tail removed
 	raw := append([]byte{0x00, byte(len(payload)), 0, ^byte(len(payload)), 0xff}, payload...)
 	raw = append(raw, 0x00) // empty stored block header, 00 00 ff ff stripped
-	f := wire.Frame{Fin: true, Rsv1: true, Op: 1, Masked: !isClient, Key: [4]byte{7, 7, 7, 7}, Payload: raw}
-	nc.Feed(xport.Chunk{Data: wire.Append(nil, f)})
+	var cuts []int
+	switch shape % 4 {
+	case 1:
+		cuts = []int{0}
+	case 2:
+		cuts = []int{1}
+	case 3:
+		cuts = []int{5, 5}
+	}
+	var b []byte
+	prev := 0
+	for i := 0; i <= len(cuts); i++ {
+		end := len(raw)
+		if i < len(cuts) {
+			end = cuts[i]
+		}
+		f := wire.Frame{Fin: i == len(cuts), Rsv1: i == 0, Op: 1, Masked: !isClient, Key: [4]byte{7, 7, 7, byte(i)}, Payload: raw[prev:end]}
+		if i > 0 {
+			f.Op = 0
+		}
+		b = wire.Append(b, f)
+		prev = end
+	}
+	nc.Feed(xport.Chunk{Data: b})
 	_, p, err := c.ReadMessage()
 	return err == nil && bytes.Equal(p, payload)
 }
@@ -145,8 +172,11 @@ func c15Pair(ctx *core.Ctx, out *core.Out) {
 
 func c15PairOn(ctx *core.Ctx, out *core.Out, r *gen.R, idx int) {
 	dc, uc := (idx/3)%2 == 1, (idx/6)%2 == 1
+	// the application may put the offer into the request itself (under the RFC's own
+	// spelling of the header name) while Dialer.EnableCompression is off
+	appOffer := !dc && (idx/12)%3 == 1
 	a, b := xport.NewPipe()
-	desc := map[string]interface{}{"family": "pair", "dialer_enable_compression": dc, "upgrader_enable_compression": uc}
+	desc := map[string]interface{}{"family": "pair", "dialer_enable_compression": dc, "upgrader_enable_compression": uc, "offer_in_application_request_header": appOffer}
 	fail := func(sig, what string) {
 		out.Violate("C15:"+sig, what, desc)
 	}
@@ -172,10 +202,21 @@ func c15PairOn(ctx *core.Ctx, out *core.Out, r *gen.R, idx int) {
 		dd := d
 		dd.NetDialContext = nil
 		dd.NetDial = nil
+		if appOffer {
+			return dialOverH(&dd, a, http.Header{"Sec-WebSocket-Extensions": {deflateParams}})
+		}
 		return dialOver(&dd, a)
 	}()
 	sr := <-ch
 	out.Eval(core.J(desc)+fmt.Sprint(idx/12), dc || uc)
+	if appOffer && err != nil && cc == nil {
+		// a Dialer may refuse an application-supplied extension header outright
+		out.Count("application_offer_refused_by_dialer", 1)
+		if sr.c != nil {
+			sr.c.Close()
+		}
+		return
+	}
 	if err != nil || sr.err != nil || cc == nil || sr.c == nil {
 		fail("pair-handshake-failed", fmt.Sprintf("Dialer/Upgrader handshake failed: client %v, server %v", err, sr.err))
 		return
@@ -191,8 +232,11 @@ func c15PairOn(ctx *core.Ctx, out *core.Out, r *gen.R, idx int) {
 	announced, both := announcedBoth(h)
 	agreed := announced && both
 	desc["announced"], desc["both_parameters"] = announced, both
-	if announced && !(dc && uc) {
-		fail("announced-without-agreement", fmt.Sprintf("permessage-deflate announced although Dialer=%v Upgrader=%v", dc, uc))
+	if appOffer {
+		out.Count("pairs_with_offer_in_application_header", 1)
+	}
+	if announced && !((dc || appOffer) && uc) {
+		fail("announced-without-agreement", fmt.Sprintf("permessage-deflate announced although Dialer=%v (application-supplied offer=%v) Upgrader=%v", dc, appOffer, uc))
 		return
 	}
 	reqEnd := bytes.Index(a.Written(), []byte("\r\n\r\n")) + 4
@@ -297,7 +341,7 @@ func c15PairOn(ctx *core.Ctx, out *core.Out, r *gen.R, idx int) {
 		}
 	}
 	// both endpoints agree on accepting compressed input
-	ca, sa := acceptsCompressed(cc, a, true), acceptsCompressed(sc, b, false)
+	ca, sa := acceptsCompressedShape(cc, a, true, idx/7), acceptsCompressedShape(sc, b, false, idx/11)
 	if ca != agreed || sa != agreed {
 		fail("endpoints-disagree", fmt.Sprintf("101 agreed=%v but client accepts compressed=%v, server accepts compressed=%v", agreed, ca, sa))
 		return
@@ -310,9 +354,13 @@ func c15PairOn(ctx *core.Ctx, out *core.Out, r *gen.R, idx int) {
 
 // dialOver runs d.Dial over an existing transport.
 func dialOver(d *ws.Dialer, nc *xport.Conn) (*ws.Conn, *http.Response, error, *xport.Conn) {
+	return dialOverH(d, nc, nil)
+}
+
+func dialOverH(d *ws.Dialer, nc *xport.Conn, h http.Header) (*ws.Conn, *http.Response, error, *xport.Conn) {
 	dd := *d
 	dd.NetDial = func(network, addr string) (net.Conn, error) { return nc, nil }
-	c, resp, err := dd.Dial("ws://pair.example/ws", nil)
+	c, resp, err := dd.Dial("ws://pair.example/ws", h)
 	return c, resp, err, nc
 }
 
@@ -385,7 +433,7 @@ func c15ServerOffers(ctx *core.Ctx, out *core.Out) {
 		out.Violate("C15:server-compresses-without-announcing", fmt.Sprintf("server announced=%v but its frames carry RSV1=%v", announced, comp), desc)
 		return
 	}
-	if acc := acceptsCompressed(o.conn, o.nc, false); acc != announced {
+	if acc := acceptsCompressedShape(o.conn, o.nc, false, ctx.Idx/3); acc != announced {
 		out.Violate("C15:server-accepts-compressed-mismatch", fmt.Sprintf("server announced=%v but accepts a compressed frame=%v", announced, acc), desc)
 		return
 	}
@@ -455,7 +503,7 @@ func c15ClientReplies(ctx *core.Ctx, out *core.Out) {
 		out.Violate("C15:client-write-failed", werr.Error(), desc)
 		return
 	}
-	acc := acceptsCompressed(c, nc, true)
+	acc := acceptsCompressedShape(c, nc, true, ctx.Idx/3)
 	if !announced && (comp || acc) {
 		out.Violate("C15:client-compresses-without-announcement", fmt.Sprintf("the 101 did not announce permessage-deflate but the client sends RSV1=%v / accepts compressed=%v", comp, acc), desc)
 		return
